@@ -375,8 +375,12 @@ type famFsb8 []byte
 type famTsNaive time.Time
 type famTsUTC time.Time
 
-func (famDec2) VgirpcArrowResult() arrow.DataType { return &arrow.Decimal128Type{Precision: 10, Scale: 2} }
-func (famDec4) VgirpcArrowResult() arrow.DataType { return &arrow.Decimal128Type{Precision: 20, Scale: 4} }
+func (famDec2) VgirpcArrowResult() arrow.DataType {
+	return &arrow.Decimal128Type{Precision: 10, Scale: 2}
+}
+func (famDec4) VgirpcArrowResult() arrow.DataType {
+	return &arrow.Decimal128Type{Precision: 20, Scale: 4}
+}
 func (famFsb4) VgirpcArrowResult() arrow.DataType { return &arrow.FixedSizeBinaryType{ByteWidth: 4} }
 func (famFsb8) VgirpcArrowResult() arrow.DataType { return &arrow.FixedSizeBinaryType{ByteWidth: 8} }
 func (famTsNaive) VgirpcArrowResult() arrow.DataType {
